@@ -173,6 +173,19 @@ trait SourceQueryDb: salsa::Database + zydeco_statics::query::TyckDb {
 }
 
 /// Long-lived source inputs and memoized compiler queries.
+/// Delay-injection points for external runtime verification (feature `verif-hooks`, off by default).
+#[cfg(feature = "verif-hooks")]
+pub mod verif {
+    /// Called with the name of the point that is about to be passed.
+    pub static PAUSE: std::sync::OnceLock<fn(&'static str)> = std::sync::OnceLock::new();
+
+    pub(crate) fn pause(point: &'static str) {
+        if let Some(pause) = PAUSE.get() {
+            pause(point)
+        }
+    }
+}
+
 #[salsa::db]
 #[derive(Clone)]
 pub struct CompilerSession {
@@ -213,6 +226,8 @@ impl zydeco_statics::query::TyckDb for CompilerSession {
 impl SourceQueryDb for CompilerSession {
     fn source_input(&self, path: PathBuf) -> Result<SourceInput, SourceLoadError> {
         let canonical = Self::path_identity(&path)?;
+        #[cfg(feature = "verif-hooks")]
+        verif::pause("source_input:before-entry");
         Ok(match self.files.entry(canonical.clone()) {
             | Entry::Occupied(entry) => *entry.get(),
             | Entry::Vacant(entry) => {
@@ -245,6 +260,8 @@ impl CompilerSession {
         let canonical = Self::path_identity(path.as_ref())?;
         let input = self.files.get(&canonical).map(|entry| *entry).unwrap_or_else(|| {
             let disk_text = std::fs::read_to_string(&canonical).ok();
+            #[cfg(feature = "verif-hooks")]
+            verif::pause("set_overlay:between-lookup-and-insert");
             let input = SourceInput::new(self, canonical.clone(), disk_text, None);
             self.files.insert(canonical, input);
             input
@@ -480,6 +497,8 @@ impl SourceProvider for QuerySourceProvider<'_> {
         &mut self, path: &Path,
     ) -> Result<Option<Arc<SourceTemplate>>, SourceLoadError> {
         let input = self.db.source_input(path.to_path_buf())?;
+        #[cfg(feature = "verif-hooks")]
+        verif::pause("load_optional:before-presence-test");
         if input.overlay(self.db).or_else(|| input.disk_text(self.db)).is_none() {
             return Ok(None);
         }
